@@ -43,6 +43,10 @@ func loadEngine(repo, specDir string) (*Engine, error) {
 		if strings.HasPrefix(sp.Pkg.Path(), modPath) {
 			repoPkgs[sp.Pkg.Path()] = true
 			en.pkgs[sp.Pkg.Name()] = sp
+			if en.tinfo == nil {
+				en.tinfo = map[string]*types.Info{}
+			}
+			en.tinfo[sp.Pkg.Path()] = pkgs[i].TypesInfo
 			en.fset = pkgs[i].Fset
 			// contract files
 			for _, f := range pkgs[i].GoFiles {
